@@ -1167,7 +1167,7 @@ def run_case(case):
     do_recovery = (not o['perturbed']) and o['maxiters'] is None and grp_ok and o['bkg'] != 'estimator_plane'
     big = (2 * max(s.shape) + 1, 2 * max(s.shape) + 1)
     undecided = set()
-    worst_dev = dict(pos=0.0, flux=0.0)
+    worst_dev = dict(pos=0.0, flux=0.0, shape=0.0)
     if do_recovery:
         pend = {}        # fit group -> list of (what, mech, ok, detail) of its members
         for k in range(n):
@@ -1245,6 +1245,8 @@ def run_case(case):
                     worst_dev['pos'] = max(worst_dev['pos'], dev)
                 elif what == 'recovers_flux':
                     worst_dev['flux'] = max(worst_dev['flux'], dev)
+                elif what == 'recovers_free_shape_parameter':
+                    worst_dev['shape'] = max(worst_dev['shape'], dev)
         # residual image ~ 0 wherever the data are usable
         if not limited_grp.any() and not undecided:
             res = np.asarray(_strip(p.make_residual_image(call_data if not o['nddata'] else data, psf_shape=big)))
@@ -1262,7 +1264,9 @@ def run_case(case):
                 # what the accepted deviations of the table themselves contribute to the residual (first order:
                 # dpos / sigma + dflux, in units of the peak); only matters where the fitter converges loosely
                 # (image magnitude far from 1: absolute gtol of the trusted fitter)
-                prop = 3.0 * (worst_dev['pos'] / (0.3 * s.fwhm) + worst_dev['flux'])
+                # (free shape parameters: a relative width deviation d changes the peak by ~2 d; seen at thorough
+                # seed 3: gpsf_free, residual 4.8e-5 against 2.6e-5 from position and flux alone)
+                prop = 3.0 * (worst_dev['pos'] / (0.3 * s.fwhm) + worst_dev['flux'] + 2.0 * worst_dev['shape'])
                 case.check(rr <= tol['resid'] + prop, 'residual_image_is_zero', dict(mech, fit=tag), rel=rr,
                            propagated=prop)
 
